@@ -3,6 +3,7 @@ package sym
 import (
 	"fmt"
 	"os"
+	"strings"
 	"go/types"
 
 	"golang.org/x/tools/go/ssa"
@@ -147,6 +148,8 @@ func init() {
 				s.cfg.ClockSmall = v != 0
 			case "clock-horizon":
 				s.cfg.ClockHorizon = v
+			case "bulk-copy-havoc":
+				s.cfg.BulkCopyHavoc = v != 0
 			case "dpor":
 				s.cfg.DPOR = v != 0
 			case "now-monotone":
@@ -318,6 +321,9 @@ func init() {
 			s.assume(Ult(sec, Const(64, unixToInternal+(1<<34))))
 			return Struct{[]Value{nsec, sec, s.timeLocal()}}, false
 		},
+		"vfTimeAbs": func(s *State, fr *Frame, fn *ssa.Function, a []Value, d ssa.Value) (Value, bool) {
+			return harnessAPI["vfTime"](s, fr, fn, a, d)
+		},
 		"vfTimeOrZero": func(s *State, fr *Frame, fn *ssa.Function, a []Value, d ssa.Value) (Value, bool) {
 			// either the zero time.Time (no expiry) or an arbitrary wall-clock instant, without forking
 			name := strArg(a[0])
@@ -382,6 +388,9 @@ func (s *State) nativeReturn(th *Thread, caller *Frame, fr *Frame, res Value) {
 
 // assertProp checks an obligation: is PC ∧ ¬c satisfiable?
 func (s *State) assertProp(id string, c *Term) {
+	if !s.ex.owns(id) {
+		return
+	}
 	s.failAssert(id, Not(c), "")
 	if c.Op != OConst {
 		// continue under the assumption that the assertion held (if it can)
@@ -426,4 +435,17 @@ func (s *State) failAssert(id string, neg *Term, msg string) {
 	case Unknown:
 		s.ex.noteUnknownMsg("assert " + id)
 	}
+}
+
+// owns: is the assertion id decided by the running check (see Config.Owned)?
+func (ex *Explorer) owns(id string) bool {
+	if len(ex.Cfg.Owned) == 0 || strings.HasPrefix(id, "aux.") || strings.HasPrefix(id, "twin:") {
+		return true
+	}
+	for _, p := range ex.Cfg.Owned {
+		if strings.HasPrefix(id, p) {
+			return true
+		}
+	}
+	return false
 }
